@@ -283,6 +283,99 @@ func fixup(n ast.Node) {
 			ft.Results = fl
 		}
 	}
+	// declarations: specs agree with the keyword, receivers and type specs are complete
+	fresh := 0
+	name := func() *ast.Ident { fresh++; return &ast.Ident{Name: fmt.Sprintf("gsxd%d", fresh)} }
+	ast.Inspect(n, func(x ast.Node) bool {
+		switch d := x.(type) {
+		case *ast.GenDecl:
+			var specs []ast.Spec
+			for _, sp := range d.Specs {
+				switch d.Tok {
+				case token.TYPE:
+					ts, ok := sp.(*ast.TypeSpec)
+					if !ok {
+						ts = &ast.TypeSpec{}
+					}
+					if ts.Name == nil {
+						ts.Name = name()
+					}
+					if ts.Type == nil {
+						ts.Type = &ast.Ident{Name: "int"}
+					}
+					specs = append(specs, ts)
+				case token.VAR, token.CONST:
+					vs, ok := sp.(*ast.ValueSpec)
+					if !ok {
+						vs = &ast.ValueSpec{}
+					}
+					if len(vs.Names) == 0 {
+						vs.Names = []*ast.Ident{name()}
+					}
+					if vs.Type == nil && len(vs.Values) == 0 {
+						vs.Type = &ast.Ident{Name: "int"}
+					}
+					if d.Tok == token.CONST && len(vs.Values) == 0 {
+						vs.Values = []ast.Expr{&ast.BasicLit{Kind: token.INT, Value: "1"}}
+						vs.Type = nil
+					}
+					specs = append(specs, vs)
+				}
+			}
+			d.Specs = specs
+			if len(specs) > 1 && !d.Lparen.IsValid() {
+				d.Lparen, d.Rparen = 1, 1
+			}
+		case *ast.FuncDecl:
+			if d.Recv != nil && len(d.Recv.List) == 0 {
+				d.Recv = nil
+			}
+			if d.Recv != nil {
+				for _, f := range d.Recv.List {
+					if f.Type == nil {
+						f.Type = &ast.Ident{Name: "int"}
+					}
+				}
+				d.Recv.List = d.Recv.List[:1]
+			}
+			if d.Name == nil {
+				d.Name = name()
+			}
+			if d.Type == nil {
+				d.Type = &ast.FuncType{}
+			}
+			if d.Type.Params == nil {
+				d.Type.Params = &ast.FieldList{}
+			}
+		}
+		return true
+	})
+	// the communication of a select clause is a send or a receive
+	recv := func(e ast.Expr) ast.Expr {
+		if u, ok := e.(*ast.UnaryExpr); ok && u.Op == token.ARROW {
+			return e
+		}
+		return &ast.UnaryExpr{Op: token.ARROW, X: e}
+	}
+	ast.Inspect(n, func(x ast.Node) bool {
+		if cc, ok := x.(*ast.CommClause); ok && cc.Comm != nil {
+			switch st := cc.Comm.(type) {
+			case *ast.ExprStmt:
+				st.X = recv(st.X)
+			case *ast.AssignStmt:
+				if len(st.Rhs) == 1 {
+					st.Rhs[0] = recv(st.Rhs[0])
+					if st.Tok != token.DEFINE {
+						st.Tok = token.ASSIGN
+					}
+				}
+			case *ast.SendStmt:
+			default:
+				cc.Comm = &ast.ExprStmt{X: recv(&ast.Ident{Name: "gsxch"})}
+			}
+		}
+		return true
+	})
 	ast.Inspect(n, func(x ast.Node) bool {
 		switch x := x.(type) {
 		case *ast.FuncDecl:
@@ -316,9 +409,13 @@ func fixup(n ast.Node) {
 	})
 }
 
-func printNode(n interface{}) (string, error) {
+func printNode(n interface{}) (out string, err error) {
 	var buf bytes.Buffer
-	defer func() { recover() }()
+	defer func() {
+		if r := recover(); r != nil {
+			out, err = "", fmt.Errorf("printer panic: %v", r)
+		}
+	}()
 	if err := format.Node(&buf, token.NewFileSet(), n); err != nil {
 		return "", err
 	}
@@ -407,7 +504,7 @@ func collectUses(file *ast.File) map[string]*identUse {
 	return uses
 }
 
-var valueTypes = []string{"int", "string", "bool", "[]int", "*int", "float64", "[2]int", "map[string]int", "error", "interface{}", "func()", "[]string", "struct{ F int }", "chan int", "int64", "uint8"}
+var valueTypes = []string{"chan int", "int", "string", "bool", "[]int", "*int", "float64", "[2]int", "map[string]int", "error", "interface{}", "func()", "[]string", "struct{ F int }", "chan int", "int64", "uint8"}
 
 var resultTypes = []string{"", "int", "*int", "string", "bool", "[]int", "error", "(int, int)", "interface{}", "float64", "func()", "map[string]int", "[2]int"}
 
